@@ -8,7 +8,7 @@
    Stream events: 1 other text, 2 a double streamed with the stream's own formatting (6 significant digits), 3 an int,
    4 converted text that reads back exactly and contains '.'/'e', 8 converted text that reads back exactly but looks like an
    integer, 5 converted text not known to read back exactly (or of another value), 6 the literal ".0", 40 / 41 text starting with
-   the path quantifier [] / <>. */
+   the path quantifier [] / <>, 50 / 51 the text of a type in diagnostic format / in declaration syntax. */
 #ifndef DOUBLE_TEXT_H
 #define DOUBLE_TEXT_H
 extern "C" {
@@ -16,6 +16,12 @@ int verif_txt_prec, verif_txt_exact, verif_txt_mark, verif_txt_cap_ok = 1;
 double verif_txt_val, verif_last_double;
 const char* verif_txt_buf;
 }
+/* the text of a type: type_t::str() is the diagnostic S-expression format ("(const (range (int) "0" "3"))"), type_t::declaration()
+   the syntax of the grammar's Type production ("const int[0,3]") */
+#ifndef VERIF_TYPETEXT_DEFINED
+#define VERIF_TYPETEXT_DEFINED
+struct verif_typetext { int fmt; };
+#endif
 namespace std {
 inline int snprintf(char* buf, size_t n, const char* fmt, int prec, double v)
 {
@@ -61,6 +67,7 @@ struct ostream
         return *this;
     }
     ostream& operator<<(double) { log(2); return *this; }
+    ostream& operator<<(const verif_typetext& t) { log(t.fmt); return *this; } /* 50 diagnostic format, 51 declaration syntax */
     ostream& operator<<(int) { log(3); return *this; }
 };
 }
